@@ -294,6 +294,12 @@ func (b *Block) readFrom(r io.Reader) error {
 	// The spec says T[] is {itf8, element...}.
 	// This is not true for byte[] according to
 	// the EOF block.
+	if er.err != nil {
+		return er.err
+	}
+	if b.compressedSize < 0 || b.rawSize < 0 {
+		return fmt.Errorf("cram: invalid block size: compressed %d raw %d", b.compressedSize, b.rawSize)
+	}
 	b.blockData = make([]byte, b.compressedSize)
 	_, err := io.ReadFull(&er, b.blockData)
 	if err != nil {
@@ -322,7 +328,13 @@ func (b *Block) Value() (interface{}, error) {
 		if err != nil {
 			return nil, err
 		}
+		if len(blockData) < 4 {
+			return nil, errors.New("cram: file header block too short")
+		}
 		end := binary.LittleEndian.Uint32(blockData[:4])
+		if uint64(end) > uint64(len(blockData)-4) {
+			return nil, errors.New("cram: file header text longer than its block")
+		}
 		err = h.UnmarshalText(blockData[4 : 4+end])
 		if err != nil {
 			return nil, err
@@ -461,6 +473,10 @@ func (r *errorReader) itf8slice() []int32 {
 		return nil
 	}
 	if n == 0 {
+		return nil
+	}
+	if n < 0 {
+		r.err = fmt.Errorf("cram: invalid array length: %d", n)
 		return nil
 	}
 	s := make([]int32, n)
